@@ -9,7 +9,15 @@ CXX="-std=c++17 $SAN -I$REPO -I$MC -I$H"
 HX="--param asan-use-after-return=0"
 CC="$SAN -I$REPO -I$H"
 par g++ -c $CXX $HX $H/c15_c.cpp -o $BUILD/h_c.o
-par g++ -c $CXX $HX -fno-access-control $H/c15_xx.cpp -o $BUILD/h_xx.o
+# C++ harness TU: full build reads a few private members by name (-fno-access-control). If that
+# does not compile (a private member was renamed - a behaviour-preserving change), fall back to
+# public observers only; a failure of the fallback as well is a real build failure.
+build_xx() {
+  if g++ -c $CXX $HX -fno-access-control $H/c15_xx.cpp -o $BUILD/h_xx.o 2> $BUILD/h_xx_full.log; then return 0; fi
+  g++ -c $CXX $HX -DC15_PUBLIC_ONLY $H/c15_xx.cpp -o $BUILD/h_xx.o || { cat $BUILD/h_xx_full.log; return 1; }
+  echo "NOTE: private state names changed, key built from public observers + reference state" >> $BUILD/notes.txt
+}
+par build_xx
 par g++ -c $CXX $REPO/igris/shell/vtermxx.cpp -o $BUILD/vtermxx.o
 par gcc -c $CC $H/c15_cshim.c -o $BUILD/cshim.o
 par gcc -c $CC $REPO/igris/shell/vterm.c -o $BUILD/vterm.o
